@@ -109,7 +109,12 @@ func cmdRetLen(args []string) int {
 		fmt.Fprintln(os.Stderr, err)
 		return 2
 	}
-	fs := p.Func(args[0], "", args[1])
+	var fs *FuncSrc
+	if len(args) >= 3 {
+		fs = p.Func(args[0], args[1], args[2])
+	} else {
+		fs = p.Func(args[0], "", args[1])
+	}
 	sf := p.SSAFunc(fs.Obj)
 	ia := p.Intervals()
 	fi := ia.Analyze(sf)
